@@ -63,7 +63,7 @@ func fixClock() {
 }
 
 func suiteDeterminism(R *runner, r *rng) {
-	R.rule("determinism: cue lists (every second one not in start order) with 0..6 styles (every third list with identifiers differing only by case) and 0..4 regions having heterogeneous attribute subsets (SSA attribute sets differing between styles, WebVTT style blocks spread over several styles), metadata present; each list written to each of the 5 formats 50 times in this process, once in each of 4 fresh processes, and in 6 different writer orders; a deep snapshot of the list before/after every write; the STL clock (astisub.Now) is fixed, and moved when the metadata supplies both dates; oracle: all outputs of a format byte-identical, list unchanged; non-trivial = at least 2 styles")
+	R.rule("determinism: cue lists (every second one not in start order) with 0..6 styles (every third list with identifiers differing only by case) and 0..4 regions having heterogeneous attribute subsets (SSA attribute sets differing between styles, WebVTT style blocks spread over several styles), metadata present; each list written to each of the 5 formats 50 times in this process, once in each of 4 fresh processes, and in 6 different writer orders; a deep snapshot of the list before/after every write; the STL clock (astisub.Now) is fixed, moved when the metadata supplies both dates, and the GSI creation/revision dates are checked against the metadata or the injected clock (metadata as is, without dates, nil); TTML written with and without an indent option alternately; oracle: all outputs of a format byte-identical, list unchanged; non-trivial = at least 2 styles")
 	fixClock()
 	N := 40
 	if R.tier == "thorough" {
@@ -143,6 +143,66 @@ func suiteDeterminism(R *runner, r *rng) {
 				}
 				if got != first[f.name] && !strings.HasPrefix(first[f.name], "PANIC") {
 					bad(fmt.Sprintf("%s output depends on which writers ran before (order %v)", f.name, perm), "determ-order-"+f.name)
+				}
+			}
+		}
+		// the TTML writer with an indent option takes part in the orders: options are per call
+		{
+			var ref string
+			for k := 0; k < 3; k++ {
+				var b1, b2 bytes.Buffer
+				var e1, e2 error
+				safely(func() { e1 = s.WriteToTTML(&b1, astisub.WriteToTTMLWithIndentOption("\t")) })
+				safely(func() { e2 = s.WriteToTTML(&b2) })
+				if e1 == nil {
+					if ref == "" {
+						ref = hashBytes(b1.Bytes())
+					} else if hashBytes(b1.Bytes()) != ref {
+						bad("ttml writer with an indent option: repetition gives different bytes", "determ-ttml-indent")
+					}
+					if e2 == nil && bytes.Equal(b1.Bytes(), b2.Bytes()) && len(s.Items) > 0 {
+						bad("ttml writer: the indent option of one call is still in force in the next call", "determ-ttml-option-leak")
+					}
+				}
+				got := "ERR"
+				if e2 == nil {
+					got = hashBytes(b2.Bytes())
+				}
+				if got != first["ttml"] && !strings.HasPrefix(first["ttml"], "PANIC") {
+					bad("ttml output depends on the options of an earlier call", "determ-ttml-option-leak")
+				}
+			}
+		}
+		// the STL dates come from the metadata when it has them, else from the injectable clock and from nothing else
+		for variant := 0; variant < 3; variant++ {
+			s3 := c19List(seed, c)
+			wantC, wantR := "010203", "010203"
+			switch variant {
+			case 0:
+				if s3.Metadata != nil && s3.Metadata.STLCreationDate != nil {
+					wantC = s3.Metadata.STLCreationDate.Format("060102")
+				}
+				if s3.Metadata != nil && s3.Metadata.STLRevisionDate != nil {
+					wantR = s3.Metadata.STLRevisionDate.Format("060102")
+				}
+			case 1:
+				if s3.Metadata != nil {
+					m := *s3.Metadata
+					m.STLCreationDate, m.STLRevisionDate = nil, nil
+					s3.Metadata = &m
+				}
+			default:
+				s3.Metadata = nil
+			}
+			astisub.Now = func() time.Time { return time.Date(2001, 2, 3, 4, 5, 6, 0, time.UTC) }
+			var buf bytes.Buffer
+			var err error
+			safely(func() { err = s3.WriteToSTL(&buf) })
+			fixClock()
+			if err == nil && buf.Len() >= 1024 {
+				gotC, gotR := string(buf.Bytes()[224:230]), string(buf.Bytes()[230:236])
+				if gotC != wantC || gotR != wantR {
+					bad(fmt.Sprintf("STL creation/revision dates %s/%s, want %s/%s (metadata dates when present, else the injected clock 2001-02-03)", gotC, gotR, wantC, wantR), "determ-clock-source")
 				}
 			}
 		}
